@@ -42,10 +42,15 @@ def classify(resp):
 
 async def run_case(ctx, rng, index):
     so = smodel.GenOpts(p_mutation=0.5, p_subscription=0.5)
-    s, b = await X.new_bundle(rng, so)
+    s = smodel.gen_schema(rng, so)
+    s.directives["vtany"] = smodel.DirectiveDef("vtany", ["QUERY", "MUTATION", "SUBSCRIPTION", "FIELD", "FRAGMENT_DEFINITION",
+                                                          "FRAGMENT_SPREAD", "INLINE_FRAGMENT"])
+    from vt import harness
+    b = harness.Bundle(s)
+    await b.build()
     try:
         for _ in range(DOCS_PER_SCHEMA):
-            do = docgen.DocOpts(n_ops=rng.choice([(1, 1), (2, 3), (2, 4)]), op_kinds=("query", "mutation", "subscription"),
+            do = docgen.DocOpts(anydir="vtany", n_ops=rng.choice([(1, 1), (2, 3), (2, 4)]), op_kinds=("query", "mutation", "subscription"),
                                 p_spread=rng.choice([0.2, 0.35, 0.5]), p_inline=0.2, p_repeat=0.2, p_typename=0.25,
                                 max_depth=rng.choice([3, 4, 5]), max_fields=rng.choice([15, 30]), introspection=0.3,
                                 p_var=0.5)
